@@ -44,6 +44,9 @@ pub struct Profile {
     pub consts: bool,
     /// `let` in an inner block reusing the name of an enclosing block's variable
     pub shadowing: bool,
+    /// a second unguarded arm for a variant that already has one (accepted with a warning; the
+    /// first arm is the one that runs)
+    pub dup_arms: bool,
 }
 
 impl Profile {
@@ -68,6 +71,7 @@ impl Profile {
             allow_main_args: true,
             consts: true,
             shadowing: true,
+            dup_arms: false,
         }
     }
 }
@@ -873,6 +877,35 @@ impl<'c> Gen<'c> {
                     return e;
                 }
             }
+            8 if self.prof.shadowing && self.no_shadow == 0 && !self.in_const => {
+                // an else-if chain whose first branch declares a variable named like one of an
+                // enclosing block; the later links of the chain read the outer one
+                let outer: Vec<VarInfo> = self.all_vars().into_iter().filter(|v| v.concrete && v.assignable && v.name.starts_with('v') && matches!(v.ty, Ty::Int(_))).collect();
+                if !outer.is_empty() && self.spend(6) {
+                    let v = outer[self.c.below(outer.len())].clone();
+                    let c1 = self.expr(&Ty::Bool, d, Fix::Direct);
+                    self.scopes.push(Vec::new());
+                    let k = self.expr(&v.ty, 1, Fix::Direct);
+                    let shadow = Stmt::Let(v.name.clone(), Some(v.ty.clone()), Expr::Bin(BinOp::Add, Box::new(Expr::Var(v.name.clone())), Box::new(k)));
+                    self.bind(&v.name, v.ty.clone(), true);
+                    let ttail = if *ty == v.ty { Expr::Var(v.name.clone()) } else { self.expr(ty, d, fix) };
+                    self.scopes.pop();
+                    let then = Block { stmts: vec![shadow], tail: Some(Box::new(ttail)) };
+                    let lit = self.leaf(&v.ty, Fix::Direct);
+                    let c2 = Expr::Bin(if self.c.chance(128) { BinOp::Ne } else { BinOp::Lt }, Box::new(Expr::Var(v.name.clone())), Box::new(lit));
+                    let mut b2 = self.block_with_tail(ty, d, fix);
+                    let mut b3 = self.block_with_tail(ty, d, fix);
+                    if *ty == v.ty {
+                        if self.c.chance(128) {
+                            b2.tail = Some(Box::new(Expr::Var(v.name.clone())));
+                        } else {
+                            b3.tail = Some(Box::new(Expr::Var(v.name.clone())));
+                        }
+                    }
+                    let inner = Expr::If(Box::new(c2), b2, Some(b3));
+                    return Expr::If(Box::new(c1), then, Some(Block { stmts: vec![], tail: Some(Box::new(inner)) }));
+                }
+            }
             6 => {
                 // early return inside an expression: `if c { return v }` handled at statement level;
                 // here: `e?` when the function returns an Option
@@ -1358,6 +1391,21 @@ impl<'c> Gen<'c> {
             let pos = self.c.below(arms.len() + 1);
             arms.insert(pos, arm);
         }
+        if self.prof.dup_arms && !arms.is_empty() && self.c.chance(40) {
+            // a later unguarded arm for a variant that already has one never runs
+            let firsts: Vec<usize> = (0..arms.len()).filter(|i| arms[*i].variant.is_some() && arms[*i].guard.is_none()).collect();
+            if !firsts.is_empty() {
+                let i = firsts[self.c.below(firsts.len())];
+                let vn = arms[i].variant.clone().unwrap();
+                if let Some((_, ts)) = variants.iter().find(|(n, _)| *n == vn) {
+                    let ts = ts.clone();
+                    let g = self.c.chance(60);
+                    let arm = self.arm(Some((&vn, &ts)), g, ty, d, fix);
+                    let pos = i + 1 + self.c.below(arms.len() - i);
+                    arms.insert(pos, arm);
+                }
+            }
+        }
         if use_default {
             if self.c.chance(50) {
                 let arm = self.arm(None, true, ty, d, fix);
@@ -1557,8 +1605,53 @@ impl<'c> Gen<'c> {
 
     fn stmt(&mut self, depth: u32, out: &mut Vec<Stmt>) {
         let d = depth.saturating_sub(1);
-        let k = self.c.below(16);
+        let k = self.c.below(17);
         match k {
+            16 => {
+                // a match whose unguarded arms all leave the function while a guarded arm may fall
+                // through: what follows the match still runs on that path
+                if self.in_const || !self.prof.aggregates {
+                    let s = self.let_stmt(d);
+                    out.push(s);
+                    return;
+                }
+                let t = self.scalar_ty();
+                let ot = Ty::opt(t.clone());
+                let n = self.fresh("o");
+                let init = if self.c.chance(150) {
+                    let a = self.expr(&t, d, Fix::Exact);
+                    Expr::Ctor("Option".into(), "Some".into(), vec![a])
+                } else {
+                    self.construct(&ot, Fix::Direct, 1)
+                };
+                out.push(Stmt::Let(n.clone(), Some(ot.clone()), init));
+                let some = ("Some".to_string(), vec![t.clone()]);
+                let mut arms = Vec::new();
+                let ng = 1 + self.c.below(2);
+                for _ in 0..ng {
+                    let mut a = self.arm(Some((&some.0, &some.1)), true, &Ty::Unit, d, Fix::Direct);
+                    a.braces = true;
+                    arms.push(a);
+                }
+                for (vn, ts) in [some.clone(), ("None".to_string(), vec![])] {
+                    self.scopes.push(Vec::new());
+                    let binds: Vec<String> = ts.iter().map(|bt| {
+                        let b = self.fresh("b");
+                        self.bind(&b, bt.clone(), false);
+                        b
+                    }).collect();
+                    let r = self.return_expr(d);
+                    self.scopes.pop();
+                    arms.push(Arm { variant: Some(vn), binds, guard: None, body: Block { stmts: vec![Stmt::Expr(r)], tail: None }, braces: true });
+                }
+                if self.c.chance(80) {
+                    let mut a = self.arm(None, true, &Ty::Unit, d, Fix::Direct);
+                    a.braces = true;
+                    let pos = self.c.below(arms.len());
+                    arms.insert(pos, a);
+                }
+                out.push(Stmt::Expr(Expr::Match(Box::new(Expr::Var(n)), arms)));
+            }
             0..=3 => {
                 let s = self.let_stmt(d);
                 out.push(s);
